@@ -210,8 +210,16 @@ static void destroy_cif(int c) {
     free(cifs[c].last); cifs[c].last = NULL;
 }
 
+/* ---- single allocation fault during one op (family `storefault`, property C17): `fault <cls> <k>` before an op makes the k-th
+   allocation of class cls (1 = SQLite's allocator, 2 = ICU's) fail during that op; the step then carries ` !fault<fired>` --- */
+static int fault_pending = 0, fault_active = 0, fault_cls_req = 1;
+static long fault_k_req = 0;
+
 static void observe(void) {
     int c;
+#ifdef VERIF_HOOK_SQLITE_ICU
+    if (fault_active) { DISARM(); fail_at = 0; OUT(" !fault%d", fired); fault_active = 0; }
+#endif
     OUT(" ; ac=");
     for (c = 0; c < ncif; c++) OUT("%c", cifs[c].cif ? (sqlite3_get_autocommit(cifs[c].cif->db) ? '1' : '0') : 'x');
     for (c = 0; c < ncif; c++) if (cifs[c].cif) {
@@ -230,8 +238,18 @@ static void handle(int argc, char **argv) {
     av = argv; ac_ = argc; pos = 1; bad = 0;
     ncif = nch = nlh = nit = 0;
     OUT("st");
+    fault_pending = fault_active = 0;
     while (pos < argc && !bad) {
         const char *op = tok();
+#ifdef VERIF_HOOK_SQLITE_ICU
+        if (strcmp(op, "fault") == 0) {            /* applies to the next op */
+            fault_cls_req = tokint(); fault_k_req = tokint();
+            if (bad || fault_cls_req < 1 || fault_cls_req > 2 || pos >= argc) { bad = 1; break; }
+            fault_pending = 1;
+            op = tok();
+        }
+        if (fault_pending) { fault_pending = 0; fault_active = 1; verif_arm(fault_cls_req, fault_k_req); ARM(); }
+#endif
         if (strcmp(op, "cif+") == 0) {
             cif_tp *cif = NULL; int rc = cif_create(&cif);
             if (ncif >= MAXN) { bad = 1; break; }
@@ -326,6 +344,9 @@ static void handle(int argc, char **argv) {
             if (bad) break;
             if (!live_h(h)) SKIP();
             rc = cif_container_get_all_loops(chs[h].h, &ls);
+#ifdef VERIF_HOOK_SQLITE_ICU
+            DISARM();          /* the fault is meant for the call above, not for the get_names calls that print its result */
+#endif
             OUT(" | rc=%d", rc);
             if (rc == CIF_OK) {
                 for (i = 0; ls[i]; i++) {
@@ -456,6 +477,9 @@ static void handle(int argc, char **argv) {
     observed:
         observe();
     }
+#ifdef VERIF_HOOK_SQLITE_ICU
+    DISARM(); fail_at = 0;
+#endif
     if (bad) OUT(" | bad-op");
     for (i = 0; i < ncif; i++) if (cifs[i].cif) destroy_cif(i);
 }
